@@ -59,7 +59,7 @@ int parse_options(reproc_options *options, const char *const *argv)
   ENS("C13+C10/parse_options.stderr_operands", IMPLIES(RV == 0, options->redirect.err.handle == O0.redirect.err.handle && options->redirect.err.file == (O0.redirect.file != NULL ? O0.redirect.file : O0.redirect.err.file) && options->redirect.err.path == (O0.redirect.path != NULL ? O0.redirect.path : O0.redirect.err.path)))
   ENS("C13+C08/parse_options.deadline_zero_is_none", IMPLIES(RV == 0, options->deadline == (O0.deadline == 0 ? -1 : O0.deadline)))
   ENS("C13+C15/parse_options.stop_parsed", IMPLIES(RV == 0, STOP_PARSED(options->stop, O0.stop)))
-  ENS("C13/parse_options.other_fields_unchanged", options->working_directory == O0.working_directory && options->env.behavior == O0.env.behavior && options->env.extra == O0.env.extra && options->input.data == O0.input.data && options->input.size == O0.input.size && options->fork == O0.fork && options->nonblocking == O0.nonblocking && options->redirect.parent == O0.redirect.parent && options->redirect.discard == O0.redirect.discard)
+  ENS("C13+C02/parse_options.other_fields_unchanged", options->working_directory == O0.working_directory && options->env.behavior == O0.env.behavior && options->env.extra == O0.env.extra && options->input.data == O0.input.data && options->input.size == O0.input.size && options->fork == O0.fork && options->nonblocking == O0.nonblocking && options->redirect.parent == O0.redirect.parent && options->redirect.discard == O0.redirect.discard)
   ;
 #undef O0
 
